@@ -115,10 +115,19 @@ def run(res):
         # source map of the re-printed text
         out_text = j["stringified"]
         prev_dst = -1
+        brace_src = {}
         for tk in j["tokens"]:
             n_tok += 1
             d = m2.get((tk[0], tk[1]))
             s = m1.get((tk[2], tk[3]))
+            # an opening `{{` of the output is printed from an opening `{{` of the source, each from its own one
+            if d is not None and s is not None and tk[4] is None and out_text[d:d + 2] == "{{":
+                if src[s:s + 2] != "{{":
+                    viol("the `{{` printed at output offset %d is mapped to source text %r" % (d, src[s:s + 6]), {"src": src, "token": tk})
+                elif s in brace_src and brace_src[s] != d:
+                    viol("two different `{{` of the output (offsets %d and %d) are mapped to the same source `{{` at offset %d" % (
+                        brace_src[s], d, s), {"src": src, "token": tk, "output": out_text})
+                brace_src.setdefault(s, d)
             if d is None:
                 viol("source-map token has a generated position (%d,%d) outside the output" % (tk[0], tk[1]), {"src": src, "token": tk, "output": out_text})
                 continue
